@@ -24,6 +24,9 @@ class Panic(Exception):
 
 
 UNKNOWN = ("unknown",)
+import re as _re
+_TY_PARAM = _re.compile(r"^Ty\([a-z0-9]+, ([A-Za-z_][A-Za-z0-9_]*)/#\d+\)$")
+_LIT = _re.compile(r"^(\d+)(?:_(?:usize|u32|u8|u16|u64|i32|i64|isize))?$")
 
 EXTERNAL_DISCR = {
     "core::option::Option": {"None": 0, "Some": 1},
@@ -52,9 +55,10 @@ def is_sym(v):
 
 
 class Frame:
-    def __init__(self, body):
+    def __init__(self, body, env=None):
         self.body = body
         self.locals = {}
+        self.env = env or {}     # generic parameter name -> int (const generics) | type string
 
 
 class Interp:
@@ -166,7 +170,7 @@ class Interp:
             f = k["fn"]
             return ("fn", f["res"]["path"] if f.get("res") else f["path"], f)
         if "closure" in k:
-            return ("closure", k["closure"], [])
+            return ("closure", k["closure"], [], dict(fr.env))
         if "v" in k:
             v = k["v"]
             if k["ty"] in ("f32", "f64"):
@@ -180,6 +184,10 @@ class Interp:
             return self.from_json(k["val"])
         if k["ty"] == "()":
             return ("tuple", [])
+        sdesc = k.get("s", "")
+        m = _TY_PARAM.match(sdesc)
+        if m and m.group(1) in fr.env and isinstance(fr.env[m.group(1)], int):
+            return fr.env[m.group(1)]
         return UNKNOWN
 
     def from_json(self, j):
@@ -338,7 +346,7 @@ class Interp:
             if rv["ak"] == "Array":
                 return ("array", ops)
             if rv["ak"] == "Closure":
-                return ("closure", rv["closure"], ops)
+                return ("closure", rv["closure"], ops, dict(fr.env))
             return UNKNOWN
         if k == "Repeat":
             v = self.operand(fr, rv["a"])
@@ -362,10 +370,10 @@ class Interp:
         return out
 
     # ------------------------------------------------------------ execution
-    def call_body(self, body, args, depth=0):
+    def call_body(self, body, args, depth=0, env=None):
         if depth > self.max_depth:
             raise Undecided("call depth exceeded at %s" % body.path)
-        fr = Frame(body)
+        fr = Frame(body, env)
         for i, a in enumerate(args):
             fr.locals[i + 1] = a
         return self.run(fr, depth)
@@ -434,12 +442,71 @@ class Interp:
                 cell = Frame(None)
                 cell.locals[0] = f
                 env = ("ref", cell, 0, [])
-            return self.call_body(body, [env] + list(args), depth + 1)
+            return self.call_body(body, [env] + list(args), depth + 1, env=(f[3] if len(f) > 3 else None))
         if isinstance(f, tuple) and f[0] == "fn":
-            return self.call_path(f[1], f[2] if len(f) > 2 else None, list(args), depth + 1)
+            return self.call_path(f[1], f[2] if len(f) > 2 else None, list(args), depth + 1, caller=None)
         return UNKNOWN
 
-    def call_path(self, path, callee, args, depth):
+    def resolve_generic(self, a, env):
+        """generic argument string of a callee -> int | type string, in the caller's env"""
+        m = _LIT.match(a)
+        if m:
+            return int(m.group(1))
+        if a in env:
+            return env[a]
+        # substitute parameters inside compound types: [Sc; N] etc. (best effort)
+        out = a
+        for k, v in env.items():
+            out = _re.sub(r"\b%s\b" % _re.escape(k), str(v), out)
+        return out
+
+    def bind_env(self, body, callee, caller_env):
+        names = body.d.get("generics") or []
+        vals = (callee or {}).get("args") or []
+        env = {}
+        for n, v in zip(names, vals):
+            env[n] = self.resolve_generic(v, caller_env or {})
+        return env
+
+    def dispatch_trait(self, callee, args, env):
+        """unresolved call to a LOCAL trait method: pick the impl by the receiver's runtime value
+        (or, for receiver-less methods, by the Self type bound in the environment)."""
+        tr = callee.get("trait")
+        if not tr or not tr.startswith("retrofire_"):
+            return None
+        meth = callee["path"].rsplit("::", 1)[-1]
+        cands = [b for b in self.prog.bodies.values() if b.impl_trait == tr and b.kind == "AssocFn" and b.path.endswith("::" + meth)]
+        if not cands:
+            return None
+        kind = None
+        if args:
+            v = deref_all(self, args[0])
+            if isinstance(v, tuple) and v[0] == "adt":
+                kind = v[1]
+            elif isinstance(v, tuple) and v[0] in ("sym", "symop", "f"):
+                kind = "f32"
+            elif isinstance(v, int):
+                kind = "int"
+            elif isinstance(v, tuple) and v[0] == "tuple":
+                kind = "tuple%d" % len(v[1])
+        else:
+            self_ty = self.resolve_generic((callee.get("args") or ["?"])[0], env or {})
+            kind = self_ty if isinstance(self_ty, str) else None
+        if kind is None:
+            return None
+        crate_rel = kind.split("::", 1)[1] if kind.startswith("retrofire_") else kind
+        for b in cands:
+            st = b.impl_self or ""
+            if kind == "f32" and st == "f32":
+                return b
+            if kind.startswith("tuple") and st.startswith("(") and st.count(",") == int(kind[5:]) - 1:
+                return b
+            if crate_rel != "f32" and not kind.startswith("tuple") and (st.startswith(crate_rel + "<") or st == crate_rel):
+                return b
+        return None
+
+    def call_path(self, path, callee, args, depth, caller=None):
+        self.cur_env = caller.env if caller is not None else {}
         for key, fn in self.models.items():
             if key in path or (callee and (key in callee["path"] or key in callee.get("full", ""))):
                 r = fn(self, args, callee, depth)
@@ -450,11 +517,47 @@ class Interp:
                 r = fn(self, args, callee, depth)
                 if r is not NotImplemented:
                     return r
+        cenv = caller.env if caller is not None else {}
         b = self.prog.bodies.get(path)
-        if b is not None:
-            return self.call_body(b, args, depth + 1)
+        if b is not None and not (callee and callee.get("trait") and not callee.get("res") and b.impl_trait is None and callee["path"] == path and self._is_decl_only(b)):
+            return self.call_body(b, args, depth + 1, env=self.bind_env(b, callee, cenv))
+        if callee and callee.get("trait") and not callee.get("res"):
+            tb = self.dispatch_trait(callee, args, cenv)
+            if tb is not None:
+                env = self.bind_env(tb, None, cenv)
+                # const generics of the impl are inferred from the receiver where possible
+                env.update(self.infer_env(tb, args))
+                return self.call_body(tb, args, depth + 1, env=env)
         self.trace.append("unmodelled call: %s" % path)
         return UNKNOWN
+
+    def _is_decl_only(self, b):
+        return False
+
+    def infer_env(self, body, args):
+        """infer const generic parameters (array lengths) of `body` from argument values"""
+        env = {}
+        names = [n for n in (body.d.get("generics") or [])]
+        if not args:
+            return env
+        v = deref_all(self, args[0])
+        arr = None
+        if isinstance(v, tuple) and v[0] == "adt" and v[3] and isinstance(v[3][0], tuple) and v[3][0][0] == "array":
+            arr = v[3][0]
+        elif isinstance(v, tuple) and v[0] == "array":
+            arr = v
+        if arr is not None:
+            # impl<.., const N: usize> X<[Sc; N], ..>: the (first) const generic gets the length
+            st = body.impl_self or ""
+            m = _re.search(r"\[[A-Za-z0-9_:<>, ]+; ([A-Z][A-Za-z0-9_]*)\]", st)
+            if m and m.group(1) in names:
+                env[m.group(1)] = len(arr[1])
+                inner = arr[1][0] if arr[1] else None
+                m2 = _re.search(r"\[\[[A-Za-z0-9_:<>, ]+; ([A-Z][A-Za-z0-9_]*)\]; ([A-Z][A-Za-z0-9_]*)\]", st)
+                if m2 and isinstance(inner, tuple) and inner[0] == "array":
+                    env[m2.group(1)] = len(inner[1])
+                    env[m2.group(2)] = len(arr[1])
+        return env
 
     def do_call(self, fr, t, args, depth):
         c = t.get("callee")
@@ -462,7 +565,7 @@ class Interp:
             f = self.operand(fr, t["indirect"])
             return self.invoke(f, args, depth)
         path = c["res"]["path"] if c.get("res") else c["path"]
-        return self.call_path(path, c, args, depth)
+        return self.call_path(path, c, args, depth, caller=fr)
 
 
 def copy_val(v):
@@ -474,7 +577,7 @@ def copy_val(v):
         if v[0] in ("tuple", "array"):
             return (v[0], [copy_val(x) for x in v[1]])
         if v[0] == "closure":
-            return ("closure", v[1], [copy_val(x) for x in v[2]])
+            return ("closure", v[1], [copy_val(x) for x in v[2]]) + tuple(v[3:])
     return v
 
 
